@@ -35,12 +35,8 @@ inductive HasTy : Value → Ty → Prop
 def Allowed (k : Err) : Prop :=
   k = .overflow ∨ k = .entity ∨ k = .extDecimal ∨ k = .extIP ∨ k = .extDatetime ∨ k = .extDuration
 
-def PathNoDot : Expr → Prop
-  | .access e a => noDot a = true ∧ PathNoDot e
-  | _ => True
-
 def CapsHold (env : Env) (caps : Caps) : Prop :=
-  ∀ p a, (p, a) ∈ caps → ∀ e, PathNoDot e → exprVarName e = p → p ≠ [] →
+  ∀ p a, (p, a) ∈ caps → ∀ e, exprCapPath e = p → p ≠ [] →
     ∀ b, eval (.has e a) env = .ok (.bool b) → b = true
 
 def SoundRes (env : Env) (τ : Ty) (caps' : Caps) : Res → Prop
@@ -874,7 +870,6 @@ theorem sound_cmp {op : BinOp} (hop : op = .lt ∨ op = .le ∨ op = .gt ∨ op 
       · simp at h
       · rename_i rt rc hr
         have hsr := (ihr _ _ _ hc hr).2
-        simp only [if_true] at h
         split at h <;> simp at h
         obtain ⟨rfl, rfl⟩ := h
         rename_i hsame
@@ -954,105 +949,64 @@ theorem sound_containsAA {op : BinOp} (hop : op = .containsAll ∨ op = .contain
 end nodes3
 
 
-/-! ## Rendered access paths are injective when no attribute name contains a dot -/
+/-! ## Capability paths are injective on variable-rooted access chains -/
 
-theorem split_last_sep {c : Char} : ∀ {xs xs' ys ys' : List Char}, c ∉ ys → c ∉ ys' →
-    xs ++ c :: ys = xs' ++ c :: ys' → xs = xs' ∧ ys = ys'
-  | [], [], ys, ys', _, _, h => by simpa using h
-  | [], x' :: xs'', ys, ys', hy, _, h => by
-    simp only [List.nil_append, List.cons_append, List.cons.injEq] at h
-    exact absurd (by rw [h.2]; simp) hy
-  | x :: xs1, [], ys, ys', _, hy', h => by
-    simp only [List.nil_append, List.cons_append, List.cons.injEq] at h
-    exact absurd (by rw [← h.2]; simp) hy'
-  | x :: xs1, x' :: xs'', ys, ys', hy, hy', h => by
-    simp only [List.cons_append, List.cons.injEq] at h
-    obtain ⟨h1, h2⟩ := split_last_sep hy hy' h.2
-    exact ⟨by rw [h.1, h1], h2⟩
-
-theorem varNameStr_noDot (v : Var) : '.' ∉ (varNameStr v).toList := by cases v <;> decide
-theorem varNameStr_ne_nil (v : Var) : (varNameStr v).toList ≠ [] := by cases v <;> decide
-theorem varNameStr_inj {v w : Var} (h : (varNameStr v).toList = (varNameStr w).toList) : v = w := by
+theorem varNameStr_inj {v w : Var} (h : varNameStr v = varNameStr w) : v = w := by
   cases v <;> cases w <;> first | rfl | (exact absurd h (by decide))
 
-theorem noDot_iff {a : String} : noDot a = true ↔ '.' ∉ a.toList := by
-  simp [noDot]
+theorem exprCapPath_access {e : Expr} {a : String} (h : exprCapPath e ≠ []) :
+    exprCapPath (.access e a) = exprCapPath e ++ [a] := by
+  simp [exprCapPath, h]
 
-theorem exprVarName_access {e : Expr} {a : String} (h : exprVarName e ≠ []) :
-    exprVarName (.access e a) = exprVarName e ++ '.' :: a.toList := by
-  simp [exprVarName, h]
+theorem exprCapPath_access_nil {e : Expr} {a : String} (h : exprCapPath e = []) : exprCapPath (.access e a) = [] := by
+  simp [exprCapPath, h]
 
-theorem exprVarName_access_nil {e : Expr} {a : String} (h : exprVarName e = []) : exprVarName (.access e a) = [] := by
-  simp [exprVarName, h]
-
-theorem exprVarName_inj : ∀ (e e' : Expr), PathNoDot e → PathNoDot e' → exprVarName e = exprVarName e' →
-    exprVarName e ≠ [] → e = e'
-  | .var v, e', _, h2, h, hne => by
-    cases e' with
-    | var w => simp only [exprVarName] at h; rw [varNameStr_inj h]
-    | access e2 b =>
-      simp only [exprVarName] at h
-      by_cases hp : exprVarName e2 = []
-      · simp only [hp, List.isEmpty_nil, if_true] at h; exact absurd h (varNameStr_ne_nil v)
-      · simp only [hp, List.isEmpty_iff, if_false] at h
-        exact absurd (by rw [h]; simp) (varNameStr_noDot v)
-    | _ => simp only [exprVarName] at h; exact absurd h (varNameStr_ne_nil v)
-  | .access e1 a, e', h1, h2, h, hne => by
-    have hp1 : exprVarName e1 ≠ [] := by
-      intro hp; exact hne (exprVarName_access_nil hp)
-    rw [exprVarName_access hp1] at h
+/-- the length of a path is the number of accesses + 1 -/
+theorem exprCapPath_inj : ∀ (e e' : Expr), exprCapPath e = exprCapPath e' → exprCapPath e ≠ [] → e = e'
+  | .var v, e', h, hne => by
     cases e' with
     | var w =>
-      simp only [exprVarName] at h
-      exact absurd (by rw [← h]; simp) (varNameStr_noDot w)
+      simp only [exprCapPath, List.cons.injEq, and_true] at h
+      rw [varNameStr_inj h]
     | access e2 b =>
-      simp only [exprVarName] at h
-      by_cases hp : exprVarName e2 = []
-      · simp [hp] at h
-      · simp only [hp, List.isEmpty_iff, if_false] at h
-        obtain ⟨hpe, hab⟩ := split_last_sep (noDot_iff.mp h1.1) (noDot_iff.mp h2.1) h
-        have := exprVarName_inj e1 e2 h1.2 h2.2 hpe hp1
-        rw [this, String.toList_inj.mp hab]
-    | _ => simp [exprVarName] at h
-  | .lit _, _, _, _, _, hne => by simp [exprVarName] at hne
-  | .unop _ _, _, _, _, _, hne => by simp [exprVarName] at hne
-  | .binop _ _ _, _, _, _, _, hne => by simp [exprVarName] at hne
-  | .ite _ _ _, _, _, _, _, hne => by simp [exprVarName] at hne
-  | .has _ _, _, _, _, _, hne => by simp [exprVarName] at hne
-  | .like _ _, _, _, _, _, hne => by simp [exprVarName] at hne
-  | .is _ _, _, _, _, _, hne => by simp [exprVarName] at hne
-  | .isIn _ _ _, _, _, _, _, hne => by simp [exprVarName] at hne
-  | .set _, _, _, _, _, hne => by simp [exprVarName] at hne
-  | .record _, _, _, _, _, hne => by simp [exprVarName] at hne
-  | .call _ _, _, _, _, _, hne => by simp [exprVarName] at hne
-
-/-- in the proved domain every type-checked access chain is free of dotted attribute names -/
-theorem pathNoDot_of_typeOf {Γ : TEnv} : ∀ (e : Expr) (caps : Caps) (r : Ty × Caps), typeOf true Γ e caps = .ok r → PathNoDot e
-  | .access e1 a, caps, r, h => by
-    simp only [typeOf] at h
-    split at h
-    · simp at h
-    · rename_i t c h1
-      refine ⟨?_, pathNoDot_of_typeOf e1 caps _ h1⟩
-      split at h
-      · split at h
-        · simp at h
-        · rename_i hnd; simpa using hnd
-      · simp at h
-      · simp at h
-  | .lit _, _, _, _ => trivial
-  | .var _, _, _, _ => trivial
-  | .unop _ _, _, _, _ => trivial
-  | .binop _ _ _, _, _, _ => trivial
-  | .ite _ _ _, _, _, _ => trivial
-  | .has _ _, _, _, _ => trivial
-  | .like _ _, _, _, _ => trivial
-  | .is _ _, _, _, _ => trivial
-  | .isIn _ _ _, _, _, _ => trivial
-  | .set _, _, _, _ => trivial
-  | .record _, _, _, _ => trivial
-  | .call _ _, _, _, _ => trivial
-
+      by_cases hp : exprCapPath e2 = []
+      · rw [exprCapPath_access_nil hp] at h; simp [exprCapPath] at h
+      · rw [exprCapPath_access hp] at h
+        have hl := congrArg List.length h
+        simp only [exprCapPath, List.length_cons, List.length_nil, List.length_append] at hl
+        have : (exprCapPath e2).length ≠ 0 := fun h0 => hp (List.length_eq_zero_iff.mp h0)
+        omega
+    | _ => simp [exprCapPath] at h
+  | .access e1 a, e', h, hne => by
+    have hp1 : exprCapPath e1 ≠ [] := by
+      intro hp; exact hne (exprCapPath_access_nil hp)
+    rw [exprCapPath_access hp1] at h
+    cases e' with
+    | var w =>
+      have hl := congrArg List.length h
+      simp only [exprCapPath, List.length_cons, List.length_nil, List.length_append] at hl
+      have : (exprCapPath e1).length ≠ 0 := fun h0 => hp1 (List.length_eq_zero_iff.mp h0)
+      omega
+    | access e2 b =>
+      by_cases hp : exprCapPath e2 = []
+      · rw [exprCapPath_access_nil hp] at h; simp at h
+      · rw [exprCapPath_access hp] at h
+        obtain ⟨hpe, hab⟩ := List.append_inj' h rfl
+        have := exprCapPath_inj e1 e2 hpe hp1
+        simp only [List.cons.injEq, and_true] at hab
+        rw [this, hab]
+    | _ => simp [exprCapPath] at h
+  | .lit _, _, _, hne => by simp [exprCapPath] at hne
+  | .unop _ _, _, _, hne => by simp [exprCapPath] at hne
+  | .binop _ _ _, _, _, hne => by simp [exprCapPath] at hne
+  | .ite _ _ _, _, _, hne => by simp [exprCapPath] at hne
+  | .has _ _, _, _, hne => by simp [exprCapPath] at hne
+  | .like _ _, _, _, hne => by simp [exprCapPath] at hne
+  | .is _ _, _, _, hne => by simp [exprCapPath] at hne
+  | .isIn _ _ _, _, _, hne => by simp [exprCapPath] at hne
+  | .set _, _, _, hne => by simp [exprCapPath] at hne
+  | .record _, _, _, hne => by simp [exprCapPath] at hne
+  | .call _ _, _, _, hne => by simp [exprCapPath] at hne
 
 
 /-! ## `has` and `.` on records, with capabilities -/
@@ -1064,14 +1018,14 @@ theorem eval_has_record {e : Expr} {a : String} {kvs : List (String × Value)} (
     eval (.has e a) env = .ok (.bool (kvGet a kvs).isSome) := by
   simp [eval, h, bind, Except.bind]
 
-theorem capsHold_add {caps : Caps} {p : List Char} {a : String} (hc : CapsHold env caps)
-    (hnew : ∀ e, PathNoDot e → exprVarName e = p → p ≠ [] → ∀ b, eval (.has e a) env = .ok (.bool b) → b = true) :
+theorem capsHold_add {caps : Caps} {p : List String} {a : String} (hc : CapsHold env caps)
+    (hnew : ∀ e, exprCapPath e = p → p ≠ [] → ∀ b, eval (.has e a) env = .ok (.bool b) → b = true) :
     CapsHold env (caps.add p a) := by
-  intro p' a' hm e hpd hname hne b hb
+  intro p' a' hm e hname hne b hb
   simp only [Caps.add, List.mem_cons, Prod.mk.injEq] at hm
   rcases hm with ⟨rfl, rfl⟩ | hm
-  · exact hnew e hpd hname hne b hb
-  · exact hc p' a' hm e hpd hname hne b hb
+  · exact hnew e hname hne b hb
+  · exact hc p' a' hm e hname hne b hb
 
 theorem sound_has {e : Expr} {a : String} {caps caps' : Caps} {τ : Ty} (ih : IH Γ env e) (hc : CapsHold env caps)
     (h : typeOf true Γ (.has e a) caps = .ok (τ, caps')) : Sound env τ caps' (eval (.has e a) env) := by
@@ -1080,11 +1034,8 @@ theorem sound_has {e : Expr} {a : String} {caps caps' : Caps} {τ : Ty} (ih : IH
   · simp at h
   · rename_i t c he
     have hs := (ih _ _ _ hc he).2
-    have hpd : PathNoDot e := pathNoDot_of_typeOf e caps _ he
     split at h
     · rename_i attrs
-      split at h
-      · simp at h
       · -- what evaluation of the operand gives
         have hev : (∃ k, eval e env = .error k ∧ Allowed k) ∨
             (∃ kvs, eval e env = .ok (.record kvs) ∧ HasTy (.record kvs) (.record attrs)) := by
@@ -1097,13 +1048,13 @@ theorem sound_has {e : Expr} {a : String} {caps caps' : Caps} {τ : Ty} (ih : IH
             | record h1 h2 h3 => exact .inr ⟨_, rfl, HasTy.record h1 h2 h3⟩
         -- the new capability holds as soon as `e has a` is true whenever it evaluates
         have hcapsNew : (∀ b, eval (.has e a) env = .ok (.bool b) → b = true) →
-            CapsHold env (if (exprVarName e).isEmpty then caps else caps.add (exprVarName e) a) := by
+            CapsHold env (if (exprCapPath e).isEmpty then caps else caps.add (exprCapPath e) a) := by
           intro hb
           split
           · exact hc
           · refine capsHold_add hc ?_
-            intro e' hpd' hname hne b' hb'
-            have : e' = e := exprVarName_inj e' e hpd' hpd hname (by rw [hname]; exact hne)
+            intro e' hname hne b' hb'
+            have : e' = e := exprCapPath_inj e' e hname (by rw [hname]; exact hne)
             subst this; exact hb b' hb'
         -- errors of the operand propagate
         have herr : ∀ (τ' : Ty) (c' : Caps) k, eval e env = .error k → Allowed k → SoundRes env τ' c' (eval (.has e a) env) := by
@@ -1144,11 +1095,11 @@ theorem sound_has {e : Expr} {a : String} {caps caps' : Caps} {τ : Ty} (ih : IH
           rename_i ty hl
           simp only [Except.ok.injEq, Prod.mk.injEq] at h
           obtain ⟨rfl, rfl⟩ := h
-          by_cases hcap : (!(exprVarName e).isEmpty && caps.has (exprVarName e) a) = true
+          by_cases hcap : (!(exprCapPath e).isEmpty && caps.has (exprCapPath e) a) = true
           · simp only [hcap, if_true]
             simp only [Bool.and_eq_true, Bool.not_eq_true', List.isEmpty_eq_false_iff] at hcap
             have htrue : ∀ b, eval (.has e a) env = .ok (.bool b) → b = true :=
-              fun b hb => hc (exprVarName e) a (by simpa [Caps.has] using hcap.2) e hpd rfl hcap.1 b hb
+              fun b hb => hc (exprCapPath e) a (by simpa [Caps.has] using hcap.2) e rfl hcap.1 b hb
             refine ⟨fun _ => hcapsNew htrue, ?_⟩
             rcases hev with ⟨k, hk, hak⟩ | ⟨kvs, hk, hty⟩
             · exact herr _ _ k hk hak
@@ -1170,7 +1121,6 @@ theorem sound_has {e : Expr} {a : String} {caps caps' : Caps} {τ : Ty} (ih : IH
 
 theorem sound_access {e : Expr} {a : String} {caps caps' : Caps} {τ : Ty} (ih : IH Γ env e) (hc : CapsHold env caps)
     (h : typeOf true Γ (.access e a) caps = .ok (τ, caps')) : Sound env τ caps' (eval (.access e a) env) := by
-  have hpd : PathNoDot (.access e a) := pathNoDot_of_typeOf _ caps _ h
   simp only [typeOf] at h
   split at h
   · simp at h
@@ -1178,8 +1128,6 @@ theorem sound_access {e : Expr} {a : String} {caps caps' : Caps} {τ : Ty} (ih :
     have hs := (ih _ _ _ hc he).2
     split at h
     · rename_i attrs
-      split at h
-      · simp at h
       · split at h
         · simp at h
         · rename_i aty req hl
@@ -1203,9 +1151,9 @@ theorem sound_access {e : Expr} {a : String} {caps caps' : Caps} {τ : Ty} (ih :
                   | false =>
                     simp only [Bool.not_false, Bool.true_and, Bool.or_eq_true, Bool.not_eq_true', not_or,
                       Bool.not_eq_false] at hguard
-                    have hne : exprVarName e ≠ [] := by
+                    have hne : exprCapPath e ≠ [] := by
                       intro h0; simp [h0] at hguard
-                    exact hc (exprVarName e) a (by simpa [Caps.has] using hguard.2) e hpd.2 rfl hne _ (eval_has_record hr)
+                    exact hc (exprCapPath e) a (by simpa [Caps.has] using hguard.2) e rfl hne _ (eval_has_record hr)
                 rw [Option.isSome_iff_exists] at hpresent
                 obtain ⟨x, hx⟩ := hpresent
                 simp only [eval, hr, bind, Except.bind, hx]
@@ -2031,23 +1979,6 @@ theorem equalityType_dom_go {l r : Expr} {lt rt t : Ty} {neg : Bool} (h : equali
   · exact h
   · exact hgen h
 
-theorem cmpResult_dom_go {caps : Caps} {a b : TRes} {res : Ty × Caps} (h : cmpResult true caps a b = .ok res) :
-    cmpResult false caps a b = .ok res := by
-  unfold cmpResult at h ⊢
-  split at h
-  · simp at h
-  · split at h
-    · simp at h
-    · rename_i lt _ _ rt _
-      simp only [if_true] at h
-      split at h
-      · rename_i hsame
-        have : ((lt.isNil || isComparable lt) && (rt.isNil || isComparable rt)) = true := by
-          cases lt <;> cases rt <;> simp [sameComparable] at hsame <;>
-            (try (rename_i x y; cases x <;> cases y <;> simp [sameComparable] at hsame)) <;> simp [isComparable, Ty.isNil]
-        simp only [Bool.false_eq_true, if_false, this, if_true]; exact h
-      · simp at h
-
 theorem containsAAResult_dom_go {s : Bool} {caps : Caps} {a b : TRes} {res : Ty × Caps} (h : containsAAResult true s caps a b = .ok res) :
     containsAAResult false s caps a b = .ok res := by
   unfold containsAAResult at h ⊢
@@ -2208,7 +2139,7 @@ theorem typeOf_dom_go : ∀ (e : Expr) (caps : Caps) (res : Ty × Caps), typeOf 
     | ok p =>
       cases hr : typeOf true Γ r caps with
       | error e => obtain ⟨lt, lc⟩ := p; simp [hl, hr, cmpResult] at h
-      | ok q => rw [typeOf_dom_go l caps _ hl, typeOf_dom_go r caps _ hr]; rw [hl, hr] at h; exact cmpResult_dom_go h
+      | ok q => rw [typeOf_dom_go l caps _ hl, typeOf_dom_go r caps _ hr]; rw [hl, hr] at h; exact h
   | .binop .le l r, caps, res, h => by
     simp only [typeOf] at h ⊢
     cases hl : typeOf true Γ l caps with
@@ -2216,7 +2147,7 @@ theorem typeOf_dom_go : ∀ (e : Expr) (caps : Caps) (res : Ty × Caps), typeOf 
     | ok p =>
       cases hr : typeOf true Γ r caps with
       | error e => obtain ⟨lt, lc⟩ := p; simp [hl, hr, cmpResult] at h
-      | ok q => rw [typeOf_dom_go l caps _ hl, typeOf_dom_go r caps _ hr]; rw [hl, hr] at h; exact cmpResult_dom_go h
+      | ok q => rw [typeOf_dom_go l caps _ hl, typeOf_dom_go r caps _ hr]; rw [hl, hr] at h; exact h
   | .binop .gt l r, caps, res, h => by
     simp only [typeOf] at h ⊢
     cases hl : typeOf true Γ l caps with
@@ -2224,7 +2155,7 @@ theorem typeOf_dom_go : ∀ (e : Expr) (caps : Caps) (res : Ty × Caps), typeOf 
     | ok p =>
       cases hr : typeOf true Γ r caps with
       | error e => obtain ⟨lt, lc⟩ := p; simp [hl, hr, cmpResult] at h
-      | ok q => rw [typeOf_dom_go l caps _ hl, typeOf_dom_go r caps _ hr]; rw [hl, hr] at h; exact cmpResult_dom_go h
+      | ok q => rw [typeOf_dom_go l caps _ hl, typeOf_dom_go r caps _ hr]; rw [hl, hr] at h; exact h
   | .binop .ge l r, caps, res, h => by
     simp only [typeOf] at h ⊢
     cases hl : typeOf true Γ l caps with
@@ -2232,7 +2163,7 @@ theorem typeOf_dom_go : ∀ (e : Expr) (caps : Caps) (res : Ty × Caps), typeOf 
     | ok p =>
       cases hr : typeOf true Γ r caps with
       | error e => obtain ⟨lt, lc⟩ := p; simp [hl, hr, cmpResult] at h
-      | ok q => rw [typeOf_dom_go l caps _ hl, typeOf_dom_go r caps _ hr]; rw [hl, hr] at h; exact cmpResult_dom_go h
+      | ok q => rw [typeOf_dom_go l caps _ hl, typeOf_dom_go r caps _ hr]; rw [hl, hr] at h; exact h
   | .binop .add l r, caps, res, h => by
     simp only [typeOf] at h ⊢
     cases hl : typeOf true Γ l caps with
@@ -2307,26 +2238,14 @@ theorem typeOf_dom_go : ∀ (e : Expr) (caps : Caps) (res : Ty × Caps), typeOf 
     · simp at h
     · rename_i t c he
       rw [typeOf_dom_go e caps _ he]
-      simp only []
-      split at h
-      · split at h
-        · simp at h
-        · simp only [Bool.false_and, Bool.false_eq_true, if_false]; exact h
-      · simp at h
-      · simp at h
+      exact h
   | .access e a, caps, res, h => by
     simp only [typeOf] at h ⊢
     split at h
     · simp at h
     · rename_i t c he
       rw [typeOf_dom_go e caps _ he]
-      simp only []
-      split at h
-      · split at h
-        · simp at h
-        · simp only [Bool.false_and, Bool.false_eq_true, if_false]; exact h
-      · simp at h
-      · simp at h
+      exact h
   | .set es, caps, res, h => by
     simp only [typeOf] at h ⊢
     split at h
